@@ -1,6 +1,7 @@
 Require Import SQV.Model.Str SQV.Model.Escape SQV.Model.Value SQV.Model.Expr SQV.Model.Writer
   SQV.Model.RenderExpr SQV.Spec.ExprValues SQV.Proofs.WriterProofs.
-From Coq Require Import Lia.
+From Coq Require Import Lia String.
+Open Scope list_scope.
 
 (* ---- a structural induction principle for the nested expression type ---- *)
 Section ExprInd.
@@ -60,12 +61,25 @@ End ExprInd.
 Lemma vals_of_app a b : vals_of (a ++ b) = vals_of a ++ vals_of b.
 Proof. apply flat_map_app. Qed.
 
+Lemma vals_of_cons_ws s t : vals_of (WS s :: t) = vals_of t.
+Proof. reflexivity. Qed.
+Lemma vals_of_ws1 s : vals_of [WS s] = [].
+Proof. reflexivity. Qed.
+
 Lemma vals_of_sep_by sep l : vals_of sep = [] -> vals_of (sep_by sep l) = flat_map vals_of l.
 Proof.
   intros Hs. induction l as [|x l IH]; [reflexivity|].
   destruct l as [|y l']; cbn [sep_by flat_map]; [now rewrite app_nil_r|].
   rewrite !vals_of_app, Hs. cbn [app]. cbn [sep_by flat_map] in IH. now rewrite IH.
 Qed.
+
+Lemma flat_map_singletons (vs : list value) :
+  flat_map vals_of (map (fun v => [WVal v]) vs) = vs.
+Proof. induction vs as [|v vs IH]; [reflexivity|]. cbn. now rewrite IH. Qed.
+
+Lemma vals_of_flat_map {A} (f : A -> script) l :
+  vals_of (flat_map f l) = flat_map (fun x => vals_of (f x)) l.
+Proof. induction l as [|x l IH]; [reflexivity|]. cbn [flat_map]. now rewrite vals_of_app, IH. Qed.
 
 Section V.
 Variable Q : Type.
@@ -105,28 +119,6 @@ Lemma flat_map_ext_Forall {A B} (f g : A -> list B) l :
   Forall (fun x => f x = g x) l -> flat_map f l = flat_map g l.
 Proof. induction 1 as [|x l H _ IH]; [reflexivity|]. cbn. now rewrite H, IH. Qed.
 
-Definition is_empty_in (op : binop) (r : expr Q) : bool :=
-  match op, r with BIn, ETuple [] | BNotIn, ETuple [] => true | _, _ => false end.
-
-Lemma rexpr_binary_nonempty common l op r : is_empty_in op r = false ->
-  rexpr Q rq is_alpha b T common (EBinary l op r) =
-  binary_expr Q T l op r (rexpr Q rq is_alpha b T false l)
-    (match r with
-     | EBinary lo BAnd hi =>
-         if is_between op then between_bounds Q T op lo hi (rexpr Q rq is_alpha b T false lo) (rexpr Q rq is_alpha b T false hi)
-         else rexpr Q rq is_alpha b T false r
-     | _ => rexpr Q rq is_alpha b T false r
-     end).
-Proof.
-  intros H. destruct op; try reflexivity; destruct r as [|[|? ?]| | | | | | | | | | | |]; try reflexivity; discriminate.
-Qed.
-
-Lemma expr_values_binary_nonempty qv l op r : is_empty_in op r = false ->
-  expr_values qv (EBinary l op r) = expr_values qv l ++ expr_values qv r.
-Proof.
-  intros H. destruct op; try reflexivity; destruct r as [|[|? ?]| | | | | | | | | | | |]; try reflexivity; discriminate.
-Qed.
-
 (* C01 (2), expression level: for every tree without custom templates, every backend, every
    parenthesis table and both rendering paths (with / without the Postgres cast override), the
    values pushed by the rendering are exactly the traversal's values, in its order: nothing is
@@ -135,60 +127,53 @@ Theorem rendered_values_are_the_given_ones :
   forall (e : expr Q), no_template e = true ->
   forall common, vals_of (rexpr Q rq is_alpha b T common e) = expr_values (fun q => vals_of (rq q)) e.
 Proof.
-  induction e using expr_ind'; intros Hnt common; cbn [no_template] in Hnt.
+  induction e as [c|es H|x IHe|f args H|l op r IHe1 IHe2|sop q|v|vs|cs|cs es H|k|ty x IHe|whens els H H0|v] using expr_ind';
+    intros Hnt common; cbn [no_template] in Hnt.
   - cbn [rexpr expr_values]. apply vals_of_rcolref.
-  - cbn [rexpr expr_values]. cbn [vals_of flat_map app]. fold (vals_of (sep_by [ws ", "] (map (rexpr Q rq is_alpha b T false) es) ++ [ws ")"])).
-    rewrite vals_of_app, vals_of_sep_by by reflexivity. cbn [vals_of flat_map app]. rewrite app_nil_r.
+  - cbn [rexpr expr_values]. unfold ws. rewrite vals_of_cons_ws, vals_of_app, vals_of_ws1, app_nil_r.
+    rewrite vals_of_sep_by by reflexivity.
     rewrite flat_map_concat_map, map_map, <- flat_map_concat_map.
     apply flat_map_ext_Forall. rewrite forallb_forall in Hnt.
     rewrite Forall_forall in *. intros x Hx. apply H; [exact Hx|now apply Hnt].
-  - cbn [rexpr expr_values]. rewrite vals_of_app, vals_of_wrap. cbn [vals_of flat_map app]. now apply IHe.
-  - cbn [rexpr expr_values]. rewrite !vals_of_app, vals_of_rfunc_name. cbn [app vals_of flat_map].
-    rewrite app_nil_r. rewrite vals_of_sep_by by reflexivity.
+  - cbn [rexpr expr_values]. rewrite vals_of_app, vals_of_wrap. unfold ws. cbn [vals_of flat_map app]. now apply IHe.
+  - cbn [rexpr expr_values]. rewrite !vals_of_app, vals_of_rfunc_name. unfold ws at 1 3. rewrite !vals_of_ws1.
+    cbn [app]. rewrite app_nil_r. rewrite vals_of_sep_by by reflexivity.
     rewrite flat_map_concat_map, map_map, <- flat_map_concat_map.
     apply flat_map_ext_Forall. rewrite forallb_forall in Hnt.
     rewrite Forall_forall in *. intros a Ha. rewrite vals_of_app.
-    replace (vals_of (if fst a then [ws "DISTINCT "] else [])) with (@nil value) by (destruct (fst a); reflexivity).
-    cbn [app]. apply H; [exact Ha|now apply Hnt].
+    destruct (fst a); cbn [vals_of flat_map app]; (apply H; [exact Ha|now apply Hnt]).
   - apply andb_prop in Hnt as [Hl Hr].
-    destruct (is_empty_in op r) eqn:Eei.
+    cbn [rexpr expr_values]. destruct (is_empty_in Q op r) eqn:Eei.
     + (* the empty IN rewrite *)
-      destruct op; try discriminate; destruct r as [|[|? ?]| | | | | | | | | | | |]; try discriminate;
-        cbn [rexpr expr_values]; rewrite vals_of_binary_expr; reflexivity.
-    + rewrite rexpr_binary_nonempty, expr_values_binary_nonempty by assumption.
-      rewrite vals_of_binary_expr, IHe1 by assumption. f_equal.
+      destruct op; rewrite vals_of_binary_expr; reflexivity.
+    + rewrite vals_of_binary_expr, IHe1 by assumption. f_equal.
       destruct r as [| | | |lo rop hi| | | | | | | | |]; try (now apply IHe2).
       destruct rop; try (now apply IHe2).
       destruct (is_between op) eqn:Eb; [|now apply IHe2].
       (* bounds of BETWEEN: the same values as the inner AND expression *)
       rewrite vals_of_between_bounds. rewrite <- (IHe2 Hr false).
-      rewrite rexpr_binary_nonempty by (destruct hi as [|[|? ?]| | | | | | | | | | | |]; reflexivity).
+      cbn [rexpr]. change (is_empty_in Q BAnd hi) with false. cbv iota.
       rewrite vals_of_binary_expr. f_equal.
       destruct hi as [| | | |hl hop hh| | | | | | | | |]; try reflexivity. destruct hop; reflexivity.
+  - cbn [rexpr expr_values]. rewrite !vals_of_app. unfold ws. rewrite !vals_of_ws1, app_nil_r. cbn [app].
+    destruct sop; [rewrite vals_of_opt_text|]; reflexivity.
   - reflexivity.
-  - reflexivity.
-  - reflexivity.
+  - cbn [rexpr expr_values]. unfold ws. rewrite vals_of_cons_ws, vals_of_app, vals_of_ws1, app_nil_r.
+    rewrite vals_of_sep_by by reflexivity. apply flat_map_singletons.
   - reflexivity.
   - discriminate.
   - cbn [rexpr expr_values]. apply vals_of_rkeyword.
   - cbn [rexpr expr_values].
-    destruct b, common; cbn [vals_of flat_map app]; try (now apply IHe).
-    destruct (ends_with_brackets ty); rewrite !vals_of_app; cbn [vals_of flat_map app]; rewrite app_nil_r; now apply IHe.
+    destruct b, common; try (now apply IHe).
+    destruct (ends_with_brackets ty); rewrite !vals_of_app; unfold ws; cbn [vals_of flat_map app]; rewrite app_nil_r; now apply IHe.
   - apply andb_prop in Hnt as [Hw He]. cbn [rexpr expr_values].
-    rewrite !vals_of_app. cbn [vals_of flat_map app]. rewrite app_nil_r. f_equal.
-    + rewrite flat_map_concat_map.
-      assert (Hf : forall l, vals_of (flat_map (fun w : expr Q * expr Q =>
-                     [ws " WHEN ("] ++ rexpr Q rq is_alpha b T false (fst w) ++ [ws ") THEN "] ++
-                     rexpr Q rq is_alpha b T false (snd w)) l)
-                   = flat_map (fun w => vals_of (rexpr Q rq is_alpha b T false (fst w)) ++
-                                        vals_of (rexpr Q rq is_alpha b T false (snd w))) l).
-      { induction l as [|w l IHl]; [reflexivity|]. cbn [flat_map]. rewrite !vals_of_app, IHl.
-        cbn [vals_of flat_map app]. now rewrite <- !app_assoc. }
-      rewrite <- flat_map_concat_map, Hf.
+    rewrite !vals_of_app. unfold ws at 1 3. rewrite !vals_of_ws1. cbn [app]. rewrite app_nil_r. f_equal.
+    + rewrite vals_of_flat_map.
       apply flat_map_ext_Forall. rewrite forallb_forall in Hw.
       rewrite Forall_forall in *. intros w Hin. specialize (H w Hin) as [H1 H2].
-      specialize (Hw w Hin). apply andb_prop in Hw as [Hw1 Hw2]. now rewrite H1, H2.
-    + destruct els as [x|]; [|reflexivity]. rewrite vals_of_app. cbn [vals_of flat_map app]. now apply H0.
+      specialize (Hw w Hin). apply andb_prop in Hw as [Hw1 Hw2].
+      cbv beta. unfold ws. rewrite vals_of_cons_ws, vals_of_app, vals_of_cons_ws. now rewrite H1, H2.
+    + destruct els as [x|]; [|reflexivity]. unfold ws. rewrite vals_of_cons_ws. now apply H0.
   - reflexivity.
 Qed.
 End V.
